@@ -358,7 +358,17 @@ def oracle (st : St) (dg : Bytes) (io : ImplOut) (full : Bool) : Option String :
               && ((ProtoHdr.decode rec.pt).toOption.map fun (p, pay) => (p.adjustReliability s.addr, pay)) == some (px, payload)
           if okRec then none else some s!"decoded header/payload differ from what was encoded (session #{o})"
         | none => none
-    | [] => some "handed on but no session state moved (receive window not updated)"
+    | [] =>
+      -- a group data message is judged by the per-sender group counter store, not by the session's
+      -- window: what must have moved is the store, and the datagram must be an authentic group message
+      match parseAccepted io.head with
+      | some (pl, _, _) =>
+        if pl.isGroup && !pl.isControl then
+          if io.gSum.isNone then some "group data message handed on but neither a session nor the group counter store moved"
+          else if gauth || grpSessAuth then none
+          else some "group data message handed on although it is no authentic group message"
+        else some "handed on but no session state moved (receive window not updated)"
+      | none => some "accepted delivery without decoded header"
     | l => some s!"handed on but several sessions changed: {l.map (·.1)}"
 
 def step (st : St) (line : String) : St × String :=
